@@ -97,9 +97,9 @@ def get_sigop_count(self: Bytes(cls=CScript), fAccurate: Bool) -> Int:
     counting up to the first malformed push; never raises"""
     option(callable=True, auto_unfold=False)
     invariant(0, n + sigops_from(self, _pos, lastOpcode, fAccurate) == sigops_from(self, 0, 0xff, fAccurate))
-    invariant(0, 0 <= lastOpcode and lastOpcode <= 255)
+    invariant(0, 0 <= lastOpcode and lastOpcode <= 255 and n >= 0)
     hint(0, 'head', unfold(sigops_from(self, _pos, lastOpcode, fAccurate)))
-    ensures(result == sigops_from(self, 0, 0xff, fAccurate))
+    ensures(result == sigops_from(self, 0, 0xff, fAccurate) and result >= 0)
 
 
 @contract('bitcoin.core.script:CScript.is_valid', prop=P)
